@@ -114,6 +114,7 @@ static int zv_tryAdd(POOL_ctx* ctx, POOL_function fn, void* arg) {
 #ifdef ZV_NOTRACE
     return POOL_tryAdd(ctx, zv_jobfn, arg);
 #endif
+    if (g_perturb == 6) { int k; for (k = 0; k < 60; k++) { int full; pthread_mutex_lock(&ctx->queueMutex); full = isQueueFull(ctx); pthread_mutex_unlock(&ctx->queueMutex); if (!full) break; nap(1000); } }     /* patient caller: posts once a worker is idle instead of blocking on the oldest job */
     if (!g_inFrame && job->jobID == 0) frame_start(g_cctx);      /* every frame starts by posting job 0 */
     caller_sync();
     g_job[job->jobID % RING] = job; g_ckPending[job->jobID % RING] = (int)job->frameChecksumNeeded;
